@@ -352,3 +352,8 @@ def run(ctx):
         ok = len(byp) == 2 and all(paths.always_before(g, c2, lambda e: e in [s["node"] for s in byp]) or not paths.guarded(g, c2, lambda fn, cc, pol: True) for c2 in frees)
         ok = ok and all(not g.cfg.path_exists(paths.pos_of(g, body), lambda e, c2=c2: e == c2, is_barrier=lambda e: e in [s["node"] for s in byp]) for c2 in frees)
         ctx.check(l6, ok, key(g, "unlink-cell:" + side), g.where(lp), "a dangling list cell is released without first being unlinked from node->%s" % side)
+
+    # the cache test compares frame counts only: it is the start of an utterance that makes it sound, by dropping
+    # the previous utterance's lattice (seed C11-9: a second utterance of equal length got the first one's lattice)
+    from . import c08
+    c08.required_resets(ctx, P, l3, only=("decoder_start_utt",), only_paths=("d->search->dag",))
